@@ -31,7 +31,7 @@ def Scheme.code : Scheme → UInt8
 
 /-- `CompressionScheme::try_from(u8)` -/
 def Scheme.ofCode (c : UInt8) : Option Scheme :=
-  if c = 0 then some .none else if c = 1 then some .lz4 else if c = 2 then some .bg4lz4 else none
+  if c = 0 then some Scheme.none else if c = 1 then some Scheme.lz4 else if c = 2 then some Scheme.bg4lz4 else Option.none
 
 /-- result of the LZ4 frame decoder -/
 inductive Dec
